@@ -38,6 +38,7 @@ class HarnessResult:
         self.inlined = set()
         self.stubbed = set()
         self.notes = []
+        self.nonvacuous_paths = 0
 
 
 _LOADER = None
@@ -72,12 +73,18 @@ def run_harness(h: Harness) -> HarnessResult:
         except PyRaise as e:
             # an exception of the interpreted program escaping the harness is a harness bug unless checked
             ctx.fail(f"{h.name}::uncaught-exception", detail=repr(e.exc))
+        # vacuity guard: the hypotheses of this completed path must be satisfiable (unknown counts as satisfiable)
+        import z3
+        ctx.solver.set("timeout", 3000)
+        ctx.nonvacuous = ctx._check() != z3.unsat
 
     try:
         done, stats = explore(body, max_paths=h.max_paths, timeout_ms=h.timeout_ms)
         for c in done:
             res.checks.extend(c.checks)
             res.covers |= c.covers
+            if getattr(c, "nonvacuous", False):
+                res.nonvacuous_paths += 1
         res.paths = stats.paths
         res.cut = stats.cut_paths
         res.infeasible = stats.infeasible
